@@ -226,7 +226,7 @@ func casesIterative(c *caseCtx) {
 		el := time.Since(t0)
 		nclk++
 		// generous slack for a loaded machine: the answer is due at the hard limit, well before the flag
-		if !answered || el > ck.left+500*time.Millisecond {
+		if !answered || el > ck.left+250*time.Millisecond {
 			fmt.Printf("IMPLVIOL uciclock position startpos%s; %s :: no bestmove within the %v left on the clock of the side to move (waited %v) prop=C15 key=past-the-clock\n", ck.moves, ck.line, ck.left, el.Round(time.Millisecond))
 		}
 		close(in)
